@@ -314,19 +314,24 @@ class Connection(object):
             return _RESOLVED, self._local_objects[value]
         return package
 
-    def _unbox(self, package, _resolved=False):  # boxing
+    def _unbox(self, package, _resolved=False, _received=None):  # boxing
         """recreate a local object representation of the remote object: if the
         object is passed by value, just return it; if the object is passed by
         reference, create a netref to it"""
         if not _resolved:
-            package = self._resolve_local_refs(package)
+            received = [0]  # how many of the package's remote references have been taken over by a proxy
+            try:
+                return self._unbox(self._resolve_local_refs(package), True, received)
+            except Exception:
+                self._release_unreceived(package, received[0])
+                raise
         label, value = package
         if label is _RESOLVED:
             return value
         if label == consts.LABEL_VALUE:
             return value
         if label == consts.LABEL_TUPLE:
-            return tuple(self._unbox(item, True) for item in value)
+            return tuple(self._unbox(item, True, _received) for item in value)
         if label == consts.LABEL_LOCAL_REF:
             return self._local_objects[value]
         if label == consts.LABEL_REMOTE_REF:
@@ -345,8 +350,30 @@ class Connection(object):
                     cls = self._netref_class(id_pack)
                 proxy = cls(self, id_pack)
                 self._proxy_cache[id_pack] = proxy
+            if _received is not None:
+                _received[0] += 1
             return proxy
         raise ValueError("invalid label %r" % (label,))
+
+    def _release_unreceived(self, package, received):  # boxing
+        """a package could not be unboxed: the sender holds one reference for every REMOTE_REF in it, but only the
+        first `received` of them were taken over by a proxy (which releases them when it goes).  Release the others:
+        a bare netref that dies at once sends the notice"""
+        pending = []
+
+        def walk(pkg):
+            label, value = pkg
+            if label == consts.LABEL_TUPLE:
+                for item in value:
+                    walk(item)
+            elif label == consts.LABEL_REMOTE_REF:
+                pending.append((str(value[0]), value[1], value[2]))
+        try:
+            walk(package)
+        except Exception:  # a malformed package: release what was recognisable
+            pass
+        for id_pack in pending[received:]:
+            netref.BaseNetref(self, id_pack)
 
     def _netref_factory(self, id_pack):  # boxing
         return self._netref_class(id_pack)(self, id_pack)
